@@ -617,12 +617,24 @@ fn check_graph(run: &Run, cnt: &Cnt, family: &str, g: &Graph, extra: &str) {
     .chain(g.svcs.iter().map(|d| d.name.clone()))
     .collect();
   let ni = g.inputs.len();
+  let local_outcomes = std::cell::RefCell::new(BTreeSet::<String>::new());
   let judge = |invoked_kind: &str, invocable: &str, pairs: &[(String, String)], closure: &BTreeSet<String>, expected: &V, tag: &str| {
     let ctx = ctx_of(pairs);
     let got = show_value(&me.evaluate_invocable(invocable, &ctx));
     cnt.evals.fetch_add(1, Ordering::Relaxed);
     cnt.compared.fetch_add(1, Ordering::Relaxed);
     let exp = expected.show();
+    local_outcomes.borrow_mut().insert(format!(
+      "{}:{}",
+      invoked_kind,
+      match expected {
+        V::Null => "null",
+        V::S(_) => "signature-string",
+        V::Rel(..) => "relation",
+        V::Fun(_) => "function",
+        V::Ctx(_) => "context-of-outputs",
+      }
+    ));
     if *expected != V::Null {
       cnt.nontrivial.fetch_add(1, Ordering::Relaxed);
     }
@@ -742,6 +754,7 @@ fn check_graph(run: &Run, cnt: &Cnt, family: &str, g: &Graph, extra: &str) {
       judge("decision-service", &sv.name, &pairs, &closure, &expected, tag);
     }
   }
+  run.outcomes_bulk(local_outcomes.into_inner());
 }
 
 struct Names {
